@@ -61,6 +61,17 @@ def lattice(ty, rng, nrand):
     return res
 
 
+def exact_core(ty):
+    """special values and the exact boundary constants of the documented domains (no neighbours)"""
+    if ty == "f64":
+        bits = lambda x: struct.unpack("<Q", struct.pack("<d", x))[0]
+        sp = [0x7ff8000000000000, 0x7ff0000000000000, 0xfff0000000000000, 0, 0x8000000000000000, 1, 0x0010000000000000, 0x7fefffffffffffff]
+    else:
+        bits = lambda x: struct.unpack("<I", struct.pack("<f", x))[0]
+        sp = [0x7fc00000, 0x7f800000, 0xff800000, 0, 0x80000000, 1, 0x00800000, 0x7f7fffff]
+    return sp + [bits(S.f_round(ty, v)) for v in (1.0, -1.0, 0.5, 2.0, 0.1, 2.0 / 3.0, 12.0, 3.0, 1e-3, 100.0)]
+
+
 def gen_tuples(ctx):
     rng, tier = ctx["rng"], ctx["tier"]
     cap = 1500 if tier == "quick" else 40000
@@ -76,6 +87,10 @@ def gen_tuples(ctx):
                 tuples = itertools.product(pool, repeat=k)
             else:
                 tuples = [tuple(rng.choice(pool) for _ in range(k)) for _ in range(cap)]
+                if k == 2:
+                    # two-argument constructors: ALWAYS the full cross product of the special values with the exact
+                    # documented boundary constants (so that pairs like (inf, 1.0) for Zipf do not depend on the draw)
+                    tuples += list(itertools.product(exact_core(ty), repeat=2))
             for t in tuples:
                 jobs.append((name, ty, list(t), [hexf(b) for b in t]))
         # Dirichlet: lengths 0..4 over a small pool
